@@ -236,6 +236,120 @@ func genRouter(r *rand.Rand, n int, mode string, out *bufio.Writer) {
 	}
 }
 
+// ---- C05: arbitrary and grammar-mutated PATTERN strings through CheckSyntax, URL, Handle (+ a few requests)
+var patAtoms = []string{"/", "/u", "/p-", "{", "}", ":", "-", "{id}", "{id:\\d+}", "{-id}", "{id:digit}", "{:x}", "{}", "{a}{b}", "{id:[}", "{id:(}", "{id:\\}",
+	"{\u540d}", "{id:.+}", "x", ".", "*", "", "{id", "id}", "}{", "{{", "}}", "{a:b:c}", "{a-b}", "{1x:\\d}", "\\", "%", " ", "{id:\\d{2}}", "{id:a|b}"}
+
+func randPattern(r *rand.Rand) string {
+	switch r.IntN(10) {
+	case 0: // arbitrary bytes
+		n := r.IntN(12)
+		b := make([]byte, n)
+		for i := range b {
+			b[i] = byte(r.IntN(256))
+		}
+		return string(b)
+	case 1: // very long literal / very long name
+		n := 32000 + r.IntN(1600)
+		if r.IntN(2) == 0 {
+			return "/" + strings.Repeat("a", n)
+		}
+		return "/{" + strings.Repeat("n", n) + "}"
+	case 2: // a pool pattern with one byte changed
+		p := []byte(gpool[r.IntN(len(gpool))].P)
+		if len(p) > 0 {
+			cs := "{}:-/x\\["; p[r.IntN(len(p))] = cs[r.IntN(len(cs))]
+		}
+		return string(p)
+	}
+	n := 1 + r.IntN(5)
+	var b strings.Builder
+	for i := 0; i < n; i++ {
+		b.WriteString(patAtoms[r.IntN(len(patAtoms))])
+	}
+	return b.String()
+}
+
+func genPatterns(r *rand.Rand, n int, out *bufio.Writer) {
+	for ci := 0; ci < n; ci++ {
+		pat := randPattern(r)
+		icpt := map[string]string{}
+		if r.IntN(2) == 0 {
+			icpt = gIcpt
+		}
+		cfg := map[string]any{"name": "r", "trace": r.IntN(5) == 0, "icpt": icpt, "domain": ""}
+		params := map[string]string{"id": "5", "a": "x", "b": ""}
+		if r.IntN(3) == 0 {
+			params = map[string]string{}
+		}
+		ops := []map[string]any{
+			{"op": "syntax", "pat": l1enc(pat)},
+			{"op": "url", "key": "mux", "strict": false, "pat": l1enc(pat), "params": params, "chain": []any{}, "res": false},
+			{"op": "url", "key": "", "strict": false, "pat": l1enc(pat), "params": params, "chain": []any{}, "res": false},
+			{"op": "url", "key": "", "strict": true, "pat": l1enc(pat), "params": params, "chain": []any{}, "res": false},
+			{"op": "handle", "pat": l1enc(pat), "methods": []string{"GET"}, "mws": []string{}, "chain": []any{}, "res": false},
+			{"op": "url", "key": "", "strict": true, "pat": l1enc(pat), "params": params, "chain": []any{}, "res": false},
+			{"op": "remove", "pat": l1enc(pat), "methods": []string{}, "mws": []string{}, "chain": []any{}, "res": false},
+		}
+		probes := []map[string]any{}
+		for _, p := range []string{pat, mutatePath(r, pat, true), "/u/5", "", "*", mutatePath(r, "/u/5/x", true)} {
+			if len(p) > 200 {
+				p = p[:200]
+			}
+			probes = append(probes, map[string]any{"path": l1enc(p), "wit": "", "wps": map[string]string{}})
+		}
+		c := gcase{Fam: "router", ID: fmt.Sprintf("gpat:%d", ci), Cfg: cfg, Ops: ops, Battery: "every",
+			Pool: map[string]any{"probes": probes, "methods": []string{"GET", "OPTIONS", oddM[r.IntN(len(oddM))]}}}
+		b, _ := json.Marshal(c)
+		out.Write(b)
+		out.WriteByte('\n')
+	}
+}
+
+// ---- C05: arbitrary Host / Accept / path bytes through Hosts.Match, the version matchers and Group.ServeHTTP
+func randBytes(r *rand.Rand, max int) string {
+	n := r.IntN(max + 1)
+	b := make([]byte, n)
+	for i := range b {
+		b[i] = byte(r.IntN(256))
+	}
+	return string(b)
+}
+
+func genMatchBytes(r *rand.Rand, n int, out *bufio.Writer) {
+	hostSeeds := []string{"a.example.com", "A.Example.COM:80", "[::1]:80", "7q.example.com", ":", "[", "]", "a.example.com:", "a.example.com:8x", "*", ""}
+	accSeeds := []string{"application/json; version=v1", "text/html;version=\"v2\"", ";", "a/b;;", "a/b; version", "a/b; version=", "*/*; q=0.8; version=v1"}
+	for ci := 0; ci < n; ci++ {
+		ops := []map[string]any{
+			{"op": "hnew", "domains": []string{"a.example.com", "b.example.com", "c.example.com", "d.example.com", "e.example.com", "{sub}.example.com", "{sub:\\w+}.b.com", "::1"}, "flag": r.IntN(2) == 0},
+			{"op": "pathver", "key": "ver", "versions": []string{"v1", "/v11/"}},
+			{"op": "headerver", "key": "hv", "val": "version", "versions": []string{"v1", "v2"}},
+		}
+		reqs := []map[string]any{}
+		for k := 0; k < 30; k++ {
+			h := hostSeeds[r.IntN(len(hostSeeds))]
+			switch r.IntN(3) {
+			case 0:
+				h = mutatePath(r, h, true)
+			case 1:
+				h = randBytes(r, 10)
+			}
+			reqs = append(reqs, map[string]any{"op": "hmatch", "host": l1enc(h), "pat": "", "params": map[string]string{}})
+			p := mutatePath(r, []string{"/v1/x", "/v11/", "/v1", "/x/v1/"}[r.IntN(4)], true)
+			reqs = append(reqs, map[string]any{"op": "pv", "path": l1enc(p), "hdr": map[string]string{}})
+			a := accSeeds[r.IntN(len(accSeeds))]
+			if r.IntN(2) == 0 {
+				a = mutatePath(r, a, true)
+			}
+			reqs = append(reqs, map[string]any{"op": "hvm", "path": "/x", "hdr": map[string]string{"Accept": l1enc(a)}})
+		}
+		c := map[string]any{"fam": "match", "id": fmt.Sprintf("gmb:%d", ci), "ops": ops, "reqs": reqs}
+		b, _ := json.Marshal(c)
+		out.Write(b)
+		out.WriteByte('\n')
+	}
+}
+
 func cmdGen(args []string) {
 	fs := flag.NewFlagSet("gen", flag.ExitOnError)
 	fam := fs.String("fam", "router", "")
@@ -253,7 +367,13 @@ func cmdGen(args []string) {
 	r := rand.New(rand.NewPCG(*seed, 0x9e3779b97f4a7c15))
 	switch *fam {
 	case "router":
-		genRouter(r, *n, *mode, out)
+		if *mode == "patterns" {
+			genPatterns(r, *n, out)
+		} else {
+			genRouter(r, *n, *mode, out)
+		}
+	case "match":
+		genMatchBytes(r, *n, out)
 	default:
 		fmt.Fprintln(os.Stderr, "gen: unknown family", *fam)
 		os.Exit(2)
